@@ -1553,11 +1553,12 @@ func init() {
 			"GraphQL subscription open), branching (2-3 nodes, concurrent writes, exchange by block-closure copy + VerifMerge, multi-parent commits), each optionally with a delete. " +
 			"Every composite commit listed by commits(docID, fieldName:_C) on every node is read with Col(cid,docID), also with matching / non-matching equality filters on s and i (indexed in the indexed configuration), also in the middle of the history. " +
 			"In a third of the histories (and two anchors) documents of a second collection Twin, which shares the field names name/s/i/n with Doc, are written in between: every Twin commit is requested through Doc (bare, with the Twin docID, with a Doc docID) and through Twin, every Doc commit through Twin - a commit of another collection is no state of a document of the queried one. " +
+			"In the histories with an odd script length every node finally patches Doc to a new active schema version and reads every commit again with the same oracles (mode .../after-schema-patch). " +
 			"non-trivial = >=3 commits and a counter field written; distinct by (kind, configuration, per-commit (document, parent count, fields written) sequence).",
 		Cases: ttCases,
 		Run:   runTimeTravel,
 		Floors: []string{"versioned_reads", "counter_history_len_ge4", "branching_histories", "merge_commit_reads", "subscription_results", "subscription_results_evaluated_after_later_commits", "single_head_reads", "null_write_reads", "float_counter_reads", "delete_commit_reads", "mid_history_reads", "filtered_versioned_reads_on_indexed_field", "nontrivial_histories", "branching_histories_with_lazy_subscription",
-			"cross_collection_reads", "cross_collection_reads_commit_with_shared_fields_only", "cross_collection_reads_with_docid", "cross_collection_reads_doc_commit_through_twin", "versioned_reads_second_collection"},
+			"cross_collection_reads", "cross_collection_reads_commit_with_shared_fields_only", "cross_collection_reads_with_docid", "cross_collection_reads_doc_commit_through_twin", "versioned_reads_second_collection", "versioned_reads_after_schema_patch"},
 		CaseTimeout: 12 * time.Minute,
 		Assumptions: []string{
 			"after a local write the writer's merged set for the document is exactly ancestors(c) ∪ {c}, so its ordinary query right after the write is the state of commit c",
